@@ -42,7 +42,7 @@ Owner == CHOOSE c \in Expected : c.role = "owner"
 Cur == Proj(Owner)
 
 Acked == Ev.ret \in {"ok", "val", "num", "none"}
-Refused == Ev.ret \in {"found", "notfound", "nosuchlock", "notacquired"}
+Refused == Ev.ret \in {"found", "notfound", "nosuchlock", "notacquired", "entrytoolarge", "keytoolarge"}
 MustBePresent == Acked /\ Ev.op \in {"put", "getput", "incr", "decr", "incrf", "lock", "expire", "lease"}
 MustBeAbsent == Acked /\ Ev.op \in {"del", "unlock", "evict"}
 \* the last-access stamp is not compared; an expired key may have been removed by the background sampler
